@@ -8,6 +8,7 @@ import Driver.Discover
 import Driver.Attrs
 import Driver.Serve
 import Driver.Media
+import Driver.Lexer
 open Lean
 
 def dispatch (j : Json) : Except String Json := do
@@ -28,6 +29,7 @@ def dispatch (j : Json) : Except String Json := do
   | "serve" => Driver.ServeD.handle j
   | "media" => Driver.MediaD.handle j
   | "mediaattr" => Driver.MediaD.handleAttr j
+  | "lex" => Driver.LexerD.handle j
   | "ping" => pure (Json.mkObj [("pong", Json.bool true)])
   | _ => throw s!"unknown op {op}"
 
